@@ -195,6 +195,58 @@ def r3_no_plaintext_in_logs(ctx):
     r.ok("format-sites-scanned", "-", "%d formatting call sites scanned for plaintext type arguments" % n, work=n)
 
 
+STRINGY = re.compile(r"^(&|mut |core::option::Option<|alloc::borrow::Cow<|'_ |'static |alloc::vec::Vec<)*(str\b|alloc::string::String|alloc::vec::Vec<u8>|\[u8|secrecy::SecretBox|std::path::PathBuf|std::path::Path\b|serde_json::value::Value)")
+# String-like values derived from a plaintext-typed value that are logged on
+# purpose: (function, number of sites, reason).
+LOGGED_DERIVED_OK = {
+    "sos_client_storage::files::file_manager::ExternalFileManager::write_update_checksum":
+        (4, "logs the source path chosen by the user for an attachment being imported and the SHA-256 name of the encrypted blob; no secret content"),
+}
+
+
+def r3b_no_derived_plaintext_in_logs(ctx):
+    ws = ctx.ws
+    r = ctx.rule("C03-R3b", "no string or byte value derived from a decrypted secret is passed to a log macro",
+                 floor=1, kind="K4 taint")
+    n = 0
+    for f in ws.fns.values():
+        if f.crate in idioms.TEST_CRATES:
+            continue
+        fg = None
+        cnt = 0
+        bodies = {x.path: x for x in f.bodies}
+        for b, i, t in f.calls():
+            if t.get("callee") not in ("tracing_core::field::display", "tracing_core::field::debug", "tracing::field::display", "tracing::field::debug"):
+                continue
+            T = (t.get("targs") or ["?"])[0]
+            if not STRINGY.search(T):
+                continue
+            n += 1
+            fg = fg or FlowGraph(ws, f)
+            sl = fg.back_from_operand(b, t["args"][0])
+            src = None
+            for (bp, key) in sl.nodes:
+                bb = bodies.get(bp)
+                if bb is None or not isinstance(key, int):
+                    continue
+                ty = bb.locals[key]
+                for p in PLAINTEXT:
+                    if p in ty and "secrecy::SecretBox" != p:
+                        src = (bb.vars.get(str(key)) or "_%d" % key, p)
+            if src is None:
+                continue
+            k = "%s|logs-derived#%d" % (f.root, cnt)
+            cnt += 1
+            okn, reason = LOGGED_DERIVED_OK.get(f.root, (0, ""))
+            if cnt <= okn:
+                r.ok(k, cfg.loc(b, i), "tabled: " + reason, work=len(sl.nodes))
+            else:
+                r.violation(k, cfg.loc(b, i),
+                            "a %s derived from `%s` (%s) is written to the log: decrypted material reaches the log file" % (T.replace("&", "").rsplit("::", 1)[-1], src[0], src[1].rsplit("::", 1)[-1]),
+                            work=len(sl.nodes))
+    r.ok("string-like-log-values", "-", "%d string/bytes-typed log field values traced back to their sources" % n, work=n)
+
+
 def r4_external_files(ctx):
     ws = ctx.ws
     r = ctx.rule("C03-R4", "external files are written only as the age encryptor's output",
@@ -261,5 +313,6 @@ def run(ctx):
     r1_type_containment(ctx)
     r2_ciphertext_provenance(ctx)
     r3_no_plaintext_in_logs(ctx)
+    r3b_no_derived_plaintext_in_logs(ctx)
     r4_external_files(ctx)
     r6_search_index_memory_only(ctx)
